@@ -564,6 +564,14 @@ def _pop_grid():
 
 
 def generate(rng, tier, n):
+    """generated histories, shortest first: the driver shrinks the first violating cases it meets, and a short
+    history costs a fraction of a long one per shrink round"""
+    cases = list(_generate(rng, tier, n))
+    cases.sort(key=lambda c: len(c["ops"]))
+    return cases
+
+
+def _generate(rng, tier, n):
     if tier == "thorough" and n >= 1000:
         for c in _slice_grid():
             yield c
@@ -1182,11 +1190,10 @@ def shrink(case):
             if c is not None:
                 yield c
         return
-    for parts in (4, 8):
-        size = max(1, n // parts)
-        for s in range(0, n, size):
-            out.append(cand(ops[:s] + ops[s + size:]))
-    if n <= 12:
+    size = max(1, n // 4)            # at most 4 + 4 (+ n when short) candidates per round
+    for s in range(0, n, size):
+        out.append(cand(ops[:s] + ops[s + size:]))
+    if n <= 10:
         for s in range(n):
             out.append(cand(ops[:s] + ops[s + 1:]))
     for c in out:
